@@ -177,6 +177,9 @@ func newSideWorldFile(dir string, cfgYAML string, cfgFile string) *sideWorld {
 	w.loaded = []projGen{}
 	w.cfgm.AddReloadCallbacks(w.sm.ApplyConfig, w.inj.ApplyConfig, func(ci *prom.ConfigInfo) error {
 		w.fileFrom = string(ci.RawContent) // the injector has written the file from this configuration
+		if startReloadFails {
+			return fmt.Errorf("scripted: prometheus is not up")
+		}
 		if w.cfgFailNext {
 			w.cfgFailNext = false
 			return fmt.Errorf("scripted: prometheus reload failed")
@@ -186,7 +189,7 @@ func newSideWorldFile(dir string, cfgYAML string, cfgFile string) *sideWorld {
 		return nil
 	})
 	w.tm.AddUpdateCallbacks(w.inj.UpdateTargets, func(map[string][]*target.Target) error {
-		if w.failNext {
+		if w.failNext || startReloadFails {
 			w.failNext = false
 			return fmt.Errorf("scripted: prometheus reload failed")
 		}
@@ -218,16 +221,38 @@ func newSideWorldFile(dir string, cfgYAML string, cfgFile string) *sideWorld {
 }
 
 // restart simulates a process restart on the same store directory and configuration.
-func (w *sideWorld) restart() *sideWorld {
+func (w *sideWorld) restart() *sideWorld { return w.restartWith(false) }
+
+// restartWith(true): Prometheus does not take any reload while the new process starts (it is not up yet); it goes on with
+// what it had loaded
+func (w *sideWorld) restartWith(reloadFails bool) *sideWorld {
 	raw := ""
 	if w.cfgm.ConfigInfo().ConfigHash != "" {
 		raw = string(w.cfgm.ConfigInfo().RawContent)
 	}
+	startReloadFails = reloadFails
 	n := newSideWorld(w.dir, raw)
+	startReloadFails = false
+	if reloadFails && raw != "" {
+		// the configuration the sidecar was given while its Prometheus was not up is not in force; the coordinator
+		// pushes it again, and this time Prometheus takes the reload
+		if err := n.cfgm.ReloadFromRaw([]byte(raw)); err != nil {
+			n.loadErr = err
+		}
+	}
 	n.promHead = w.promHead
 	n.sim.answer = w.sim.answer
 	return n
 }
+
+// promReads: Prometheus comes up (or reloads by itself) and reads the generated file
+func (w *sideWorld) promReads() {
+	w.loaded = w.generated()
+	w.loadedFrom = w.fileFrom
+}
+
+// set while a sideWorld is being constructed whose Prometheus refuses every reload
+var startReloadFails bool
 
 // apiGet / apiPost call the real service handler in process, decoding the answer exactly as
 // pkg/api.Get / Post do.
